@@ -149,6 +149,53 @@ fn gen_valid(cx: &mut Case) -> Result<Valid, String> {
     Ok(Valid { family: g.family, prog, wit, ir: g.prog })
 }
 
+/// A valid program whose single witness has a type of width zero with a huge tree:
+/// `comp (comp (pair witness U_k) (pair (take n) (drop n))) unit` with U_0 = unit,
+/// U_{j+1} = pair U_j U_j and one shared `n = iden` (which forces both components of the pair
+/// to the same type 1^(2^k), k = 20..64).  Types, roots and the (empty) witness are all handled
+/// in O(k) when sharing is respected; anything that walks the type as a tree needs 2^k steps.
+/// The encoding must be accepted and round-trip under the usual fuel / watchdog bounds.
+fn zero_width_witness(cx: &mut Case) -> CaseResult {
+    cx.label("mode: witness of a huge zero-width type");
+    let k = cx.src.range(20, 64);
+    let mut nodes: Vec<Ir> = vec![];
+    let mut push = |ir: Ir| {
+        nodes.push(ir);
+        nodes.len() - 1
+    };
+    let w = push(Ir::Witness);
+    let mut u = push(Ir::Unit);
+    for _ in 0..k {
+        u = push(Ir::Pair(u, u));
+    }
+    let p = push(Ir::Pair(w, u));
+    let n = push(Ir::Iden);
+    let t = push(Ir::Take(n));
+    let d = push(Ir::Drop(n));
+    let q = push(Ir::Pair(t, d));
+    let c = push(Ir::Comp(p, q));
+    let un = push(Ir::Unit);
+    let root = push(Ir::Comp(c, un));
+    let prog = Prog { nodes, root, family: Family::Core };
+    let mut v = simplicity::Value::unit();
+    for _ in 0..k {
+        v = simplicity::Value::product(v.shallow_clone(), v);
+    }
+    let mut wit = std::collections::HashMap::new();
+    wit.insert(w, v);
+    let redeem = build_redeem(&prog, true, &wit).map_err(|e| harness_error(format!("zero-width witness program (k = {}): {:?}", k, e)))?;
+    let (pb, wb) = redeem.to_vec_with_witness();
+    cx.fp.write(&pb);
+    cx.fp.write_u64(k as u64);
+    cx.nontrivial = true;
+    cx.set_sample(|| json!({"mode": "zero-width witness type", "k": k, "program": hex(&pb), "witness": hex(&wb)}));
+    let r = decode_all(Family::Core, &pb, &wb).map_err(|e| format!("{} (witness of type 1^(2^{}))", e, k))?;
+    if !r.redeem_ok {
+        return Err(format!("RedeemNode::decode rejects the library's own encoding of a program whose witness has type 1^(2^{}): {} / {}", k, hex(&pb), hex(&wb)));
+    }
+    Ok(())
+}
+
 fn mutate_bytes(src: &mut Src, bytes: &mut Vec<u8>, other: &[u8]) -> &'static str {
     match src.below(7) {
         0 => {
@@ -388,8 +435,9 @@ fn directed_negative(src: &mut Src, v: &Valid, nodes: &[WNode], codes: &JetCodes
 }
 
 pub fn case(cx: &mut Case) -> CaseResult {
-    let mode = cx.src.weighted(&[3, 4, 4]);
+    let mode = cx.src.weighted(&[30, 40, 40, 3]);
     match mode {
+        3 => zero_width_witness(cx),
         0 => {
             cx.label("mode: raw bytes");
             let split = cx.src.u8() as usize;
